@@ -43,12 +43,12 @@ def has_kwonly(sig):
 
 
 @st.composite
-def bindings(draw, sig, vals, extra_pos=(0, 2), extra_kw=(0, 3)):
+def bindings(draw, sig, vals, extra_pos=(0, 2), extra_kw=(0, 3), force_xpos=False):
     """a valid call of sig, as a binding (which parameters are supplied, with what)"""
     names = sig_names(sig)
     nreq = len(sig.get('req', []))
     nopt = len(sig.get('opt', []))
-    want_xpos = sig.get('varargs') and draw(st.booleans())
+    want_xpos = sig.get('varargs') and (force_xpos or draw(st.booleans()))
     if want_xpos:
         k = nreq + nopt
     else:
